@@ -17,6 +17,7 @@ import (
 	"fmt"
 	"io"
 	"math/rand"
+	"os"
 	"runtime"
 	"sort"
 	"strconv"
@@ -223,7 +224,15 @@ func runExchange(w *World, loc, rem []int, user int64) (Events, []wireRec, map[c
 func RunExchange(cases []reg.Case, out *reg.Out) {
 	runtime.GOMAXPROCS(1)
 	quietLogs()
+	cur := ""
+	quiesce.OnStuck = func(dump string) {
+		fmt.Fprintf(os.Stderr, "exchange: case %s does not become quiescent\n%s\n", cur, dump)
+		out.Fail("hang", "the two nodes do not become quiescent in case %s", cur)
+		out.Finish()
+		os.Exit(3)
+	}
 	for _, c := range cases {
+		cur = c.ID
 		out.BeginCase(c)
 		runExchangeCase(c, out)
 	}
